@@ -824,6 +824,33 @@ macro_rules! impl_api {
                             }
                             Val::N
                         }
+                        // capacity management: the contents must not change, and the documented contracts of the
+                        // underlying Vec / String hold (reserve: room for n more; shrink_to: never below the length or
+                        // the requested minimum, never above the old capacity; shrink_to_fit: never below the length)
+                        "reserve" => {
+                            let n = a[0].int() as usize;
+                            buf.reserve(n);
+                            if buf.capacity() >= buf.ab().len() + n { Val::N } else { c("badcap", vec![]) }
+                        }
+                        "shrinkfit" => {
+                            let old = buf.capacity();
+                            buf.shrink_to_fit();
+                            if buf.capacity() >= buf.ab().len() && buf.capacity() <= old { Val::N } else { c("badcap", vec![]) }
+                        }
+                        "shrinkto" => {
+                            let n = a[0].int() as usize;
+                            let old = buf.capacity();
+                            let len = buf.ab().len();
+                            buf.shrink_to(n);
+                            let cap = buf.capacity();
+                            if cap >= len && cap <= old && (old < n || cap >= n) { Val::N } else { c("badcap", vec![]) }
+                        }
+                        "clonefrom" => {
+                            let $bb = a[0].bytes();
+                            let other = $buf;
+                            buf.clone_from(&other);
+                            Val::N
+                        }
                         "collect" => {
                             let $cb = a[0].items();
                             buf = $collect;
